@@ -160,6 +160,77 @@ func c03Connect(driver string) vh.Unit {
 	}}
 }
 
+// the same node id arrives several times - again through the same entry point, through another one,
+// or in the other role: each arrival is judged on its own (its role now, its balance now), whatever
+// an earlier arrival was or how it ended
+func c03ConnectSequences(driver string) vh.Unit {
+	name := "connect-sequences/" + driver
+	entries := []string{"connect", "client", "host-connect", "host-legacy"}
+	return vh.Unit{Name: name, Run: func(u *vh.U) {
+		for _, min := range []string{"off", "5"} {
+			for _, off := range []int64{-1, 0} {
+				for _, split := range []string{"credit", "trial"} {
+					for _, e1 := range entries {
+						for _, e2 := range entries {
+							for _, e3 := range []string{"", "connect", "client"} {
+								var m int64
+								if min != "off" {
+									m = big10(min).Int64()
+								}
+								b := m + off
+								pw, ids := c03Setup(driver, min, split, b, 2)
+								C := ids[0]
+								seq := []string{e1, e2}
+								if e3 != "" {
+									seq = append(seq, e3)
+								}
+								for i, entry := range seq {
+									isHost := entry == "host-connect" || entry == "host-legacy"
+									ctx := vh.CtxWith(pw.Host("cli").Service())
+									n := vsched.Now().UnixNano() + 999 + int64(i)
+									var err error
+									switch entry {
+									case "connect", "host-connect":
+										req := vh.DefaultParam("vipnode_connect", "").(pool.ConnectRequest)
+										req.NodeInfo.IsFullNode = isHost
+										_, err = pw.Pool.Connect(ctx, C.SignNode("vipnode_connect", n, req), C.NodeID, n, req)
+									case "client":
+										req := pool.ClientRequest{Kind: "geth", NumHosts: 1}
+										_, err = pw.Pool.Client(ctx, C.SignNode("vipnode_client", n, req), C.NodeID, n, req)
+									case "host-legacy":
+										req := pool.HostRequest{Kind: "geth"}
+										_, err = pw.Pool.Host(ctx, C.SignNode("vipnode_host", n, req), C.NodeID, n, req)
+									}
+									u.R.Evaluations++
+									u.R.States++
+									u.R.Transitions++
+									u.R.Traces++
+									_, isLow := vh.AsLowBalance(err)
+									want := !isHost && min != "off" && b < m
+									if vh.IsRefused(err) {
+										u.Violate("connect/unexpected-error", fmt.Sprintf("arrival %d of %v: %v", i+1, seq, err), nil)
+									}
+									desc := fmt.Sprintf("min=%s split=%s balance=%d, arrivals of one node id %v, at arrival %d (%s)", min, split, b, seq, i+1, entry)
+									u.Observe(fmt.Sprintf("seq %s %d %v %v", entry, i, want, isLow))
+									switch {
+									case isLow && !want && isHost:
+										u.Violate("connect/host-refused-for-balance", desc+": a full-node host was refused: "+err.Error(), nil)
+									case isLow && !want:
+										u.Violate("connect/refused-at-or-above-minimum", desc+": refused: "+err.Error(), nil)
+									case !isLow && want:
+										u.Violate("connect/not-refused-below-minimum", fmt.Sprintf("%s: returned %v", desc, err), nil)
+									}
+								}
+							}
+						}
+					}
+				}
+			}
+		}
+		u.Sample("every sequence of two entry points (+ an optional third) for one node id, below and at the minimum")
+	}}
+}
+
 func c03Update(driver string) vh.Unit {
 	name := "keepalive/" + driver
 	return vh.Unit{Name: name, Run: func(u *vh.U) {
@@ -514,7 +585,7 @@ func init() {
 		Units: func(tier string) []vh.Unit {
 			var us []vh.Unit
 			for _, d := range vh.Drivers {
-				us = append(us, c03Connect(d), c03Update(d), c03FanoutAfterReconnect(d))
+				us = append(us, c03Connect(d), c03ConnectSequences(d), c03Update(d), c03FanoutAfterReconnect(d))
 				depth := 4
 				if tier == "thorough" {
 					depth = 8
